@@ -196,7 +196,7 @@ class HarmonicMeanZeros(_MeanAxisOb):
 
 class GeometricMean(_MeanAxisOb):
     name = 'geometricMean/spec'
-    uf_congruence = True
+    uf_congruence = False
     fn = 'geometricMean'
 
     def clauses(self, w, S, a, P, v, va, vb, hl, hh, lo, hi):
